@@ -1,5 +1,5 @@
 """Property id -> check function."""
-from . import props_act, props_cache, props_det, props_filter, props_glr, props_imp, props_lex, props_life, props_lr, props_prec, props_str, props_sugar, props_tbl
+from . import props_act, props_cache, props_det, props_filter, props_glr, props_imp, props_layout, props_lex, props_life, props_lr, props_prec, props_str, props_sugar, props_tbl
 
 CHECKS = {
     "C01": props_glr.c01,
@@ -15,6 +15,7 @@ CHECKS = {
     "C09": props_act.c09,
     "C12": props_cache.c12,
     "C13": props_sugar.c13,
+    "C14": props_layout.c14,
     "C15": props_life.c15,
     "C16": props_det.c16,
     "C18": props_filter.c18,
